@@ -35,6 +35,11 @@ func init() { register("C13", c13) }
 //	px_b, nexus_b (+_err, _recs) : WritePhyloXML / WriteNexus fed with the trees as built (not re-parsed), ids 0,1,...
 //	nexus_z (+_err, _recs) : WriteNexus fed with records whose Id was never set (every tree is written as tree0)
 //	tnexus, tnexus_recs : Tree.Nexus() of the first tree and its records
+//	pxdoc (optional, in the case): the same trees as a PhyloXML document rendered by the generator, not by the writer under
+//	          test (a clade may carry <name> and <confidence> together, as files of other tools do):
+//	          pxd_recs = records of ReadMultiTrees(pxdoc, phyloxml); pxd_px(+_err,_recs) = WritePhyloXML of these records and
+//	          its records; pxd_nwk = Newick() of every tree read, one per line, pxd_nwk_recs its records;
+//	          pxd_nexus(+_err,_recs) = WriteNexus of the records read
 //	first   : for newick (src), nexus, phyloxml, nextstrain: ((fmt f) (first REC) (head REC|()))
 //	          = utils.ReadTreeReader against the first record of utils.ReadMultiTrees
 //	REC     : ((id n) (err msg)) | ((id n) (err "") (nwk text) (tree T) (audit (...)))
@@ -184,6 +189,30 @@ func c13run(c *Sexp) *Sexp {
 	nexz, err := nexus.WriteNexus(feed(true), c.Bool("translate"))
 	chain("nexus_z", nexz, err, utils.FORMAT_NEXUS)
 
+	// chains that start from a PhyloXML document (gotree reformat phyloxml|newick|nexus -f phyloxml)
+	var pxdoc string
+	hasDoc := false
+	if v := c.Get("pxdoc"); v != nil && !v.IsList {
+		pxdoc, hasDoc = v.Atom, true
+		rd := func() <-chan tree.Trees {
+			return utils.ReadMultiTrees(bufio.NewReader(strings.NewReader(pxdoc)), utils.FORMAT_PHYLOXML)
+		}
+		add("pxd_recs", c13multi(pxdoc, utils.FORMAT_PHYLOXML))
+		pp, err := phyloxml.WritePhyloXML(rd())
+		chain("pxd_px", pp, err, utils.FORMAT_PHYLOXML)
+		var nl strings.Builder
+		for r := range rd() {
+			if r.Err == nil && r.Tree != nil {
+				nl.WriteString(r.Tree.Newick())
+				nl.WriteString("\n")
+			}
+		}
+		add("pxd_nwk", A(nl.String()))
+		add("pxd_nwk_recs", c13multi(nl.String(), utils.FORMAT_NEWICK))
+		pn, err := nexus.WriteNexus(rd(), c.Bool("translate"))
+		chain("pxd_nexus", pn, err, utils.FORMAT_NEXUS)
+	}
+
 	// Tree.Nexus()
 	tn := trees[0].Nexus()
 	add("tnexus", A(tn))
@@ -195,6 +224,9 @@ func c13run(c *Sexp) *Sexp {
 		c13first("phyloxml", px, utils.FORMAT_PHYLOXML))
 	if v := c.Get("nsjson"); v != nil && !v.IsList {
 		first.List = append(first.List, c13first("nextstrain", v.Atom, utils.FORMAT_NEXTSTRAIN))
+	}
+	if hasDoc {
+		first.List = append(first.List, c13first("phyloxml document", pxdoc, utils.FORMAT_PHYLOXML))
 	}
 	add("first", first)
 	return obs
